@@ -194,6 +194,116 @@ def run(ctx):
 
     ctx.section(_sec_guard)
 
+    def _sec_handover():
+        # ------------------------------------------------------- guard and gen see the same path
+        # The refusal looks at one spelling of the output path; what gen receives must be that very value. main
+        # builds `args_dict` from `vars(args)` and splats it into gen: the projection must hand `output_filename`
+        # through unchanged (a per-key transformation such as expanduser / abspath makes `~/x.py` pass the test
+        # and then be appended to).
+        KEY = "output_filename"
+
+        def three(e, kvar):
+            """3-valued truth of a test over the key variable bound to KEY (None = depends on the value)"""
+            if isinstance(e, ast.BoolOp):
+                vals = [three(x, kvar) for x in e.values]
+                if isinstance(e.op, ast.And):
+                    return False if False in vals else (None if None in vals else True)
+                return True if True in vals else (None if None in vals else False)
+            if isinstance(e, ast.UnaryOp) and isinstance(e.op, ast.Not):
+                v = three(e.operand, kvar)
+                return None if v is None else not v
+            if isinstance(e, ast.Compare) and len(e.ops) == 1 and isinstance(e.left, ast.Name) and e.left.id == kvar:
+                try:
+                    rhs = ast.literal_eval(e.comparators[0])
+                except Exception:
+                    return None
+                op = e.ops[0]
+                if isinstance(op, ast.Eq):
+                    return KEY == rhs
+                if isinstance(op, ast.NotEq):
+                    return KEY != rhs
+                if isinstance(op, ast.In):
+                    return KEY in rhs
+                if isinstance(op, ast.NotIn):
+                    return KEY not in rhs
+            if (
+                isinstance(e, ast.Call)
+                and isinstance(e.func, ast.Attribute)
+                and isinstance(e.func.value, ast.Name)
+                and e.func.value.id == kvar
+                and e.func.attr in ("endswith", "startswith")
+                and len(e.args) == 1
+            ):
+                try:
+                    return bool(getattr(KEY, e.func.attr)(ast.literal_eval(e.args[0])))
+                except Exception:
+                    return None
+            return None
+
+        def passes_through(e, kvar, vvar):
+            if isinstance(e, ast.Name) and e.id == vvar:
+                return True
+            if isinstance(e, ast.IfExp):
+                t = three(e.test, kvar)
+                if t is True:
+                    return passes_through(e.body, kvar, vvar)
+                if t is False:
+                    return passes_through(e.orelse, kvar, vvar)
+                return passes_through(e.body, kvar, vvar) and passes_through(e.orelse, kvar, vvar)
+            return False
+
+        guard_tests = [n for n in iter_own(main.node) if isinstance(n, ast.Call) and norm(n.func).rpartition(".")[2] == "isfile" and n.args and KEY in norm(n.args[0])]
+        guard_roots = set()
+        for g_ in guard_tests:
+            a0 = g_.args[0]
+            while isinstance(a0, (ast.Attribute, ast.Subscript)):
+                a0 = a0.value
+            if isinstance(a0, ast.Name):
+                guard_roots.add(a0.id)
+        n_h = 0
+        for c in [n for n in iter_own(main.node) if isinstance(n, ast.Call) and index.callee(main.mod, n, main) == gen.qual]:
+            explicit = [k for k in c.keywords if k.arg == KEY]
+            for k in explicit:
+                n_h += 1
+                ok = any(norm(k.value) == norm(g_.args[0]) for g_ in guard_tests) or not guard_tests
+                ctx.ob("C19.guard", main, "gen(output_filename={})".format(short(k.value, 60)), ok, "" if ok else "gen is handed `{}` while the refuse-if-exists test looks at `{}`".format(short(k.value, 60), ", ".join(short(g_.args[0], 40) for g_ in guard_tests)), line=c.lineno)
+            for k in [k for k in c.keywords if k.arg is None]:
+                ctx.need(isinstance(k.value, ast.Name), "gen(**<expression>): the splatted mapping is not a local name")
+                dname = k.value.id
+                if guard_roots and guard_roots <= {dname}:
+                    n_h += 1
+                    ctx.ob("C19.guard", main, "gen(**{}) and the refusal read the same mapping".format(dname), True, line=c.lineno)
+                    continue
+                defs = [n for n in iter_own(main.node) if isinstance(n, (ast.Assign, ast.AnnAssign)) and any(isinstance(t, ast.Name) and t.id == dname for t in (n.targets if isinstance(n, ast.Assign) else [n.target]))]
+                ctx.need(len(defs) == 1 and defs[0].value is not None, "`{}` is no longer defined exactly once in main".format(dname))
+                v = defs[0].value
+                ok, why = False, ""
+                if isinstance(v, ast.DictComp) and len(v.generators) == 1 and isinstance(v.generators[0].target, ast.Tuple) and len(v.generators[0].target.elts) == 2 and all(isinstance(x, ast.Name) for x in v.generators[0].target.elts):
+                    kvar, vvar = (x.id for x in v.generators[0].target.elts)
+                    ctx.need("vars(args)" in norm(v.generators[0].iter) or "args.__dict__" in norm(v.generators[0].iter), "`{}` is not built from vars(args)".format(dname))
+                    key_ok = isinstance(v.key, ast.Name) and v.key.id == kvar
+                    ok = key_ok and passes_through(v.value, kvar, vvar)
+                    why = "" if ok else "`{}` is built with the value `{}` for the key `{}`: the path gen writes is a transformation of the path the refuse-if-exists test (`{}`) looked at, so another spelling of an existing file (e.g. `~/x.py`) passes the test and is appended to".format(
+                        dname, short(v.value, 80), short(v.key, 30), ", ".join(short(g_.args[0], 40) for g_ in guard_tests)
+                    )
+                elif norm(v) in ("vars(args)", "dict(vars(args))", "vars(args).copy()", "args.__dict__"):
+                    ok = True
+                else:
+                    ctx.need(False, "`{}` = {} is not a projection of vars(args) this rule understands".format(dname, short(v, 60)))
+                n_h += 1
+                ctx.ob("C19.guard", main, "{} hands output_filename through unchanged".format(dname), ok, why, line=defs[0].lineno)
+                # later per-key stores
+                for n in iter_own(main.node):
+                    tg = None
+                    if isinstance(n, ast.Assign):
+                        tg = [t for t in n.targets if isinstance(t, ast.Subscript) and isinstance(t.value, ast.Name) and t.value.id == dname]
+                    if tg and any(isinstance(t.slice, ast.Constant) and t.slice.value == KEY for t in tg) and n.lineno < c.lineno:
+                        val_ok = any(norm(n.value) == norm(g_.args[0]) for g_ in guard_tests)
+                        ctx.ob("C19.guard", main, n, val_ok, "" if val_ok else "output_filename is replaced in `{}` before gen is called: guard and write can refer to different files".format(dname), line=n.lineno)
+        ctx.floor("hand-over sites of output_filename between main's guard and gen", n_h, 1)
+
+    ctx.section(_sec_handover)
+
     def _sec_append():
         nonlocal e, facts, n, p, r
         # ----------------------------------------------------------- append
